@@ -244,12 +244,19 @@ def renamed_copy(fn: ast.AST, mapping: dict) -> ast.AST:
 def single_defs(stmts: Iterable[ast.stmt]) -> dict:
     """locals of a statement list that are bound exactly once, by a plain `name = expr` (no loops/augmented/tuple targets)"""
     count, val = {}, {}
+    seen = set()  # the list may contain a statement and the statements nested in it: every binding counts once
     for st in stmts:
         for n in ast.walk(st):
+            if id(n) in seen:
+                continue
             if isinstance(n, ast.Name) and isinstance(n.ctx, (ast.Store, ast.Del)):
+                seen.add(id(n))
                 count[n.id] = count.get(n.id, 0) + 1
             elif isinstance(n, ast.ExceptHandler) and n.name:
+                seen.add(id(n))
                 count[n.name] = count.get(n.name, 0) + 1
+            elif isinstance(n, ast.Assign) and len(n.targets) == 1 and isinstance(n.targets[0], ast.Name):
+                val[n.targets[0].id] = n.value
         if isinstance(st, ast.Assign) and len(st.targets) == 1 and isinstance(st.targets[0], ast.Name):
             val[st.targets[0].id] = st.value
     return {k: v for k, v in val.items() if count.get(k) == 1}
@@ -320,3 +327,83 @@ def stale_loop_variable_uses(fn, cfg=None):
                 if itn[0].id in rd.get(x.id, ()):
                     out.append((v, x.lineno))
     return out
+
+
+def unroll_literal_dispatch(fn):
+    """Returns a copy of `fn` in which every table-driven first-match loop
+
+        for a, b in TABLE:            # TABLE: a literal tuple/list of tuples, written in place or bound once to a local
+            if <test over a, b>:
+                <body over a, b>
+                break
+        else:
+            <default>
+
+    is written as the if/elif/else chain it stands for (the loop variables replaced by each row's entries).  Behaviour is identical:
+    rows are tried in order, the first hit wins, the else-branch runs when none matched.  Loops of any other shape are left alone."""
+    fn = ast_copy(fn)
+    unroll_literal_dispatch_inplace(fn)
+    return fn
+
+
+def unroll_literal_dispatch_inplace(fn) -> int:
+    """the same, rewriting the given tree (function or module) in place; returns the number of loops rewritten"""
+    tables, counts = {}, {}
+    done = 0
+    for st in ast.walk(fn):
+        if isinstance(st, ast.Assign) and len(st.targets) == 1 and isinstance(st.targets[0], ast.Name):
+            counts[st.targets[0].id] = counts.get(st.targets[0].id, 0) + 1
+            tables[st.targets[0].id] = st.value
+
+    def rows_of(e):
+        if isinstance(e, ast.Name) and counts.get(e.id) == 1:
+            e = tables[e.id]
+        if isinstance(e, (ast.Tuple, ast.List)) and e.elts and all(isinstance(r, (ast.Tuple, ast.List)) for r in e.elts):
+            return [r.elts for r in e.elts]
+        return None
+
+    class Sub(ast.NodeTransformer):
+        def __init__(self, m):
+            self.m = m
+
+        def visit_Name(self, n):
+            if n.id in self.m and isinstance(n.ctx, ast.Load):
+                return ast_copy(self.m[n.id])
+            return n
+
+    def convert(lp):
+        if not (isinstance(lp, ast.For) and lp.orelse and isinstance(lp.target, ast.Tuple) and all(isinstance(t, ast.Name) for t in lp.target.elts)):
+            return None
+        rows = rows_of(lp.iter)
+        if rows is None or any(len(r) != len(lp.target.elts) for r in rows):
+            return None
+        if len(lp.body) != 1 or not isinstance(lp.body[0], ast.If) or lp.body[0].orelse:
+            return None
+        inner = lp.body[0]
+        if not inner.body or not isinstance(inner.body[-1], ast.Break) or any(isinstance(x, (ast.Break, ast.Continue)) for b in inner.body[:-1] for x in ast.walk(b)):
+            return None
+        names = [t.id for t in lp.target.elts]
+        chain = None
+        for r in reversed(rows):
+            m = dict(zip(names, r))
+            test = Sub(m).visit(ast_copy(inner.test))
+            body = [Sub(m).visit(ast_copy(b)) for b in inner.body[:-1]] or [ast.Pass()]
+            chain = ast.If(test=test, body=body, orelse=[chain] if chain is not None else [ast_copy(b) for b in lp.orelse])
+        return chain
+
+    changed = True
+    while changed:
+        changed = False
+        for node in ast.walk(fn):
+            for f in ("body", "orelse", "finalbody"):
+                lst = getattr(node, f, None)
+                if isinstance(lst, list):
+                    for i, st in enumerate(lst):
+                        c = convert(st)
+                        if c is not None:
+                            lst[i] = ast.copy_location(c, st)
+                            changed = True
+                            done += 1
+    if done:
+        ast.fix_missing_locations(fn)
+    return done
